@@ -106,6 +106,30 @@ def reference_double_round():
     return out
 
 
+_TERMS = {}
+
+
+def _term(*t):
+    if t not in _TERMS:
+        _TERMS[t] = len(_TERMS)
+    return _TERMS[t]
+
+
+def eval_round_terms(stmts):
+    """final symbolic value of the 16 state words after the statements; None if a statement is malformed"""
+    w = [_term("x", i) for i in range(16)]
+    for st in stmts:
+        if st[0] == "add":
+            a, b = sorted((w[st[1]], w[st[2]]))
+            w[st[1]] = _term("add", a, b)
+        elif st[0] == "rot":
+            a, b = sorted((w[st[1]], w[st[2]]))
+            w[st[1]] = _term("rot", st[3], _term("xor", a, b))
+        else:
+            return None
+    return w
+
+
 def parse_round_stmt(e):
     """('add', dst, src) | ('rot', dst, other, n) | None"""
     if e.get("k") != "bin":
@@ -151,12 +175,17 @@ def chacha_rounds(rep, fn, arr_suffix):
         arrs = {s[-1] for s in stmts if s[0] in ("add", "rot")}
         want = reference_double_round()
         desc = "the rounds loop body is one ChaCha double round: 4 column + 4 diagonal quarter-rounds, rotations 16,12,8,7"
-        if got == want and len(arrs) == 1 and list(arrs)[0].endswith(arr_suffix):
-            rep.proved("R-SPEC", fn, "double-round", desc, "64 statements on %s" % list(arrs)[0])
+        # dataflow equivalence, not statement order: both sequences are evaluated over symbolic words (hash-consed
+        # terms, + and ^ commutative); independent quarter-rounds may be reordered or interleaved freely
+        tg, tw = eval_round_terms(got), eval_round_terms(want)
+        if tg is not None and tg == tw and len(arrs) == 1 and list(arrs)[0].endswith(arr_suffix):
+            rep.proved("R-SPEC", fn, "double-round", desc, "%d statements on %s; the 16 output words equal the reference terms" % (len(got), list(arrs)[0]))
         else:
+            badw = [i for i in range(16) if tg is None or tg[i] != tw[i]]
             bad = next((i for i, (g, w) in enumerate(zip(got, want)) if g != w), min(len(got), len(want)))
-            rep.violated("R-SPEC", fn, "double-round", desc, "statement %d is %s, reference %s (count %d/64)" % (
-                bad, got[bad] if bad < len(got) else None, want[bad] if bad < len(want) else None, len(got)))
+            rep.violated("R-SPEC", fn, "double-round", desc, "output words %s differ from the reference double round; first differing "
+                         "statement %d is %s, reference %s (count %d/64)" % (badw[:6], bad, got[bad] if bad < len(got) else None,
+                                                                          want[bad] if bad < len(want) else None, len(got)))
         # loop step and bound
         hb = fn.blocks[h]
         c = hb.cond
